@@ -14,7 +14,7 @@ def run(res, tier, seed):
     n = 300 if tier == "quick" else 3000
     engine.run_ops(res, "C17", OPS, seed, n, 130 if tier == "quick" else 300)
     # the same observers on windows (foreign bits around the view must not be seen)
-    engine.run_ops(res, "C17", OPS, seed + 7, n // 2, 130, W=lambda role: {}, tag="/win")
+    engine.run_ops(res, "C17", OPS, seed + 7, n // 2, 130, W=lambda role: {"fill": "rand"}, tag="/win")
 
 
 def replay(res, path):
